@@ -4,3 +4,4 @@ import BufProofs.Props.C15
 import BufProofs.Props.C19
 import BufProofs.Props.C09
 import BufProofs.Props.C02
+import BufProofs.Props.C18
